@@ -74,7 +74,10 @@ def record(rr, text, ignore):
             dl.append(k)
             dv.append(observe.m6(agg[k]))
         ch = " " if a.chain_id == "_" else a.chain_id
-        return {"rk": [ch, a.res_num, a.icode or " ", g.type, g.residue_type.strip(), a.name if a.type != "atom" else ""], "pka6": observe.m6(g.pka_value),
+        full = sorted([kind[:2] + "|" + d.label, observe.m6(d.value)] for kind in ("sidechain", "backbone", "coulomb")
+                      for d in g.determinants[kind])
+        return {"full": full,
+                "rk": [ch, a.res_num, a.icode or " ", g.type, g.residue_type.strip(), a.name if a.type != "atom" else ""], "pka6": observe.m6(g.pka_value),
                 "ev6": observe.m6(g.energy_volume), "el6": observe.m6(g.energy_local), "dl": dl, "dv": dv, "label": g.label}
     for n in names:
         conf = mol.conformations[n]
@@ -191,6 +194,13 @@ def run(ctx):
     emitted += his if ctx.thorough() else rng.sample(his, min(len(his), 150))
     inputs = [("gen-%d" % k, concretise(s)) for k, s in enumerate(emitted)]
     inputs += constructed(ctx)
+    from . import c16
+    from .. import runbank
+    _, cfgt = runbank.cfg_record()
+    for nm, text, _o in c16.ion_constructs(ctx, cfgt)[:3]:
+        inputs.append((nm + " (single conformation)", text))
+        body = "\n".join(ln for ln in text.splitlines() if not ln.startswith("END"))
+        inputs.append((nm + " (two identical models)", f"MODEL        1\n{body}\nENDMDL\nMODEL        2\n{body}\nENDMDL\nEND\n"))
     for n in ("conf-alt-AB", "conf-alt-AB-mutant", "conf-alt-BC", "conf-model-missing-atoms", "conf-model-mutant", "4DFR"):
         inputs.append((n, C.test_pdb_text(n)))
     recs, metas = [], []
@@ -207,7 +217,7 @@ def run(ctx):
     wd = tlc.workdir("c08")
     tf = os.path.join(wd, "conf.json")
     json.dump(recs, open(tf, "w"))
-    invs = ["Names", "NeverMerged", "CompletedOK", "MeanOK", "ReportedUnion", "AvrOnce", "AvrOnlyReported"]
+    invs = ["Names", "NeverMerged", "CompletedOK", "MeanOK", "ReportedUnion", "AvrOnce", "AvrOnlyReported", "AgreeingAverageToThemselves"]
     res, viol = tlc.trace_check("Trace_Conf", invs, tf, timeout=3000)
     ctx.add_tlc(res, "trace validation of multi-conformation runs (%d)" % len(recs))
     ctx.traces += len(recs)
